@@ -5,6 +5,7 @@ from .. import pm
 from ..cfg import CFG, facts_at, guards_of
 from ..flow import Flow
 from ..pm import U
+from ..canon import canon_text as CT
 from ..srcmodel import AnalysisError, canon_eq, parent
 
 _cache = {}
@@ -119,6 +120,49 @@ def param_index(f, name):
     if f.cls is not None and ps and ps[0] in ("self", "cls"):
         i -= 1
     return i
+
+
+def bounds_on(test, var):
+    """Bounds that the comparisons of `test` put on the expression text `var`:
+    (boolean operator 'and'/'or'/None, {(op, frozenset(affine items of the other side))}) with op normalised to
+    `var OP other`. None when `test` is not a (conjunction/disjunction of) single comparison(s) with `var` alone on one side."""
+    flip = {"Lt": "Gt", "Gt": "Lt", "LtE": "GtE", "GtE": "LtE", "Eq": "Eq", "NotEq": "NotEq"}
+    if isinstance(test, ast.BoolOp):
+        parts, bop = test.values, ("and" if isinstance(test.op, ast.And) else "or")
+    else:
+        parts, bop = [test], None
+    out = set()
+    for p in parts:
+        if not (isinstance(p, ast.Compare) and len(p.ops) == 1):
+            return None
+        op = type(p.ops[0]).__name__
+        l, r = p.left, p.comparators[0]
+        if U(l) == var:
+            other = r
+        elif U(r) == var and op in flip:
+            other, op = l, flip[op]
+        else:
+            return None
+        out.add((op, frozenset((k, round(v, 9)) for k, v in affine(other).items() if v != 0)))
+    return bop, out
+
+
+def zero_vector(e):
+    """Length expression text when `e` is a list of zeros ([0.0] * n, n * [0.0], [0.0 for _ in ...]), else None."""
+    if isinstance(e, ast.BinOp) and isinstance(e.op, ast.Mult):
+        for lst, n in ((e.left, e.right), (e.right, e.left)):
+            if isinstance(lst, ast.List) and len(lst.elts) == 1 and const_num(lst.elts[0]) == 0:
+                return U(n)
+    if isinstance(e, ast.ListComp) and const_num(e.elt) == 0 and len(e.generators) == 1 and not e.generators[0].ifs:
+        it = e.generators[0].iter
+        if is_call_to(it, "range") and len(it.args) == 1:
+            return U(it.args[0])
+        return "len(%s)" % U(it)
+    return None
+
+
+def is_zero_vector_assign(s, target):
+    return isinstance(s, ast.Assign) and len(s.targets) == 1 and U(s.targets[0]) == target and zero_vector(s.value) is not None
 
 
 def holds(facts, text, polarity=True):
